@@ -6,10 +6,11 @@ pub mod c13;
 pub mod c15;
 pub mod c16;
 pub mod c17;
+pub mod c18;
 pub mod c20;
 pub mod toy;
 
-pub const ALL: &[&str] = &["C12", "C13", "C15", "C16", "C17", "C20", "TOY"];
+pub const ALL: &[&str] = &["C12", "C13", "C15", "C16", "C17", "C18", "C20", "TOY"];
 
 pub fn registry(id: &str) -> Box<dyn Driver> {
     match id {
@@ -18,6 +19,7 @@ pub fn registry(id: &str) -> Box<dyn Driver> {
         "C15" => c15::driver(),
         "C16" => c16::driver(),
         "C17" => c17::driver(),
+        "C18" => c18::driver(),
         "C20" => c20::driver(),
         "TOY" => toy::driver(),
         _ => panic!("MACHINERY: unknown property id {id}"),
